@@ -47,6 +47,8 @@ struct Model {
     now: u64,
     out: Vec<(u64, bool, String)>,
     activated: u64,
+    /// a physical key (OS code) that outputs two keys at once: (multi k1 k2)
+    multi: Option<(u16, String, String)>,
 }
 
 impl Model {
@@ -58,7 +60,13 @@ impl Model {
         if let Some((press, coord)) = self.pending.pop_front() {
             if press {
                 self.ents.retain(|e| !e.erase);
-                self.ents.push(Ent { code: code_name(coord), coord, erase: false });
+                match &self.multi {
+                    Some((c, k1, k2)) if *c == coord => {
+                        self.ents.push(Ent { code: k1.clone(), coord, erase: false });
+                        self.ents.push(Ent { code: k2.clone(), coord, erase: false });
+                    }
+                    _ => self.ents.push(Ent { code: code_name(coord), coord, erase: false }),
+                }
             } else {
                 self.ents.retain(|e| !e.erase && e.coord != coord);
             }
@@ -209,15 +217,33 @@ impl Prop for C13 {
         }
         let roa = r.chance(400);
         let mut case = Case { prop: "C13".into(), seed, ..Default::default() };
+        // optionally a physical key that outputs two of the letters at once, so that two overridden
+        // keys can be live in the same key list (eager erasure keeps that from happening otherwise)
+        let multi: Option<(&str, &str)> = if r.chance(300) {
+            let k1 = *r.pick(&LET[..3]);
+            let k2 = *r.pick(&LET[..3]);
+            if k1 != k2 {
+                Some((k1, k2))
+            } else {
+                None
+            }
+        } else {
+            None
+        };
         case.cfg = format!(
-            "(defcfg override-release-on-activation {})\n(defsrc {} {})\n(deflayer l0 {} {})\n(defoverrides {})\n",
+            "(defcfg override-release-on-activation {})\n(defsrc {} {}{})\n(deflayer l0 {} {}{})\n(defoverrides {})\n",
             if roa { "yes" } else { "no" },
             MODS8.join(" "),
             LET.join(" "),
+            if multi.is_some() { " m" } else { "" },
             MODS8.join(" "),
             LET.join(" "),
+            multi.map(|(a, b)| format!(" (multi {a} {b})")).unwrap_or_default(),
             forms.join(" ")
         );
+        if let Some((a, b)) = multi {
+            case.set("multi", format!("{a},{b}"));
+        }
         case.set("ovr", ents.join(";"));
         case.set("roa", roa as u8);
         // history biased to the modifiers and keys of the table
@@ -231,6 +257,10 @@ impl Prop for C13 {
         for _ in 0..r.range(1, 4) {
             keys.push(oscode_of(*r.pick(MODS8)));
             keys.push(oscode_of(*r.pick(LET)));
+        }
+        if multi.is_some() {
+            keys.push(oscode_of("m"));
+            keys.push(oscode_of("m"));
         }
         keys.sort();
         keys.dedup();
@@ -281,6 +311,10 @@ impl Prop for C13 {
                 now: 0,
                 out: vec![],
                 activated: 0,
+                multi: case.param("multi").and_then(|m| {
+                    let mut it = m.split(',');
+                    Some((oscode_of("m"), up(it.next()?), up(it.next()?)))
+                }),
             };
             m.run(&case.ops);
             for _ in 0..30 {
